@@ -27,17 +27,18 @@ Definition run1 (kind : nat) (ev : list (nat * Z)) (tmax : float) (exact : bool)
   | None => ([], (-99)%Z, O)
   end.
 
-(* a sequence of integrate calls on one simulation (for split integrations) *)
-Fixpoint run_seq (kind : nat) (ev : list (nat * Z)) (exact : bool) (t0 dt0 : float) (steps0 : nat)
+(* a sequence of integrate calls on one simulation (Model.integrate_seq: t, dt, steps_done carried over; stops at
+   the first call that does not return SUCCESS) *)
+Definition run_seq (kind : nat) (ev : list (nat * Z)) (exact : bool) (t0 dt0 : float) (steps0 : nat)
          (fuel : nat) (targets : list float) : list float * Z * nat :=
   match targets with
   | [] => ([t0; dt0], 0%Z, steps0)
-  | [tm] => run1 kind ev tm exact t0 dt0 steps0 fuel
-  | tm :: rest =>
-      match run1 kind ev tm exact t0 dt0 steps0 fuel with
-      | ([t1; dt1; _], _, st1) => run_seq kind ev exact t1 dt1 st1 fuel rest
-      | r => r
-      end
+  | _ =>
+    match integrate_seq FNum c1em12f c1em200f (stepper_of kind) (hb_of ev) exact fuel targets
+                        (mkSt t0 dt0 0 0%Z steps0 dt0) with
+    | Some s => ([t s; dt s; dtld s], status s, steps s)
+    | None => ([], (-99)%Z, O)
+    end
   end.
 
 Definition ok_case (c : (list float * Z * nat) * (list float * Z * nat)) : bool :=
